@@ -254,6 +254,12 @@ func (db *DB) Put(key, value string) error {
 }
 
 func (db *DB) PutBytes(keyBytes, valBytes []byte) error {
+	// same contract as Put, and it has to be checked before anything reaches the WAL: a logged record with a nil
+	// key or value cannot be replayed, an empty value reads as deleted once it is flushed
+	if len(keyBytes) == 0 || len(valBytes) == 0 {
+		return ErrEmptyKeyValue
+	}
+
 	// proto marshal takes 60%(!) of this method execution time
 	walBytes, err := proto.Marshal(&dbproto.WalMutation{
 		Mutation: &dbproto.WalMutation_Addition{
